@@ -36,23 +36,26 @@ class FakeDecoder:
 class FakeEncoder:
     """records every text it is given; returns an opaque bytes token standing for its encoding"""
 
-    def __init__(self):
+    def __init__(self, pad=0):
         self.calls = []
+        self.pad = pad                 # every non-empty text encodes to len(text) + pad bytes (multi-byte characters)
 
     def encode(self, s, final=False):
         self.calls.append((s, final))
-        return EncTok(s)
+        n = len(s)
+        return EncTok(s, nbytes=(n + self.pad) if n > 0 else 0)
 
 
 class EncTok:
     """the bytes an encoder produced for text `s` (opaque)"""
 
-    def __init__(self, s, part=False):
+    def __init__(self, s, part=False, nbytes=None):
         self.s = s
         self.part = part               # True: only a slice of the encoder's output
+        self.nbytes = nbytes           # number of bytes the text encoded to (need not equal len(text))
 
     def __len__(self):
-        return len(self.s)
+        return len(self.s) if self.nbytes is None else self.nbytes
 
     def __getitem__(self, k):
         return EncTok(self.s[k], part=True)      # a part of the encoded bytes (partial write)
@@ -75,8 +78,8 @@ class RecFile:
 
 
 class WriteEnd:
-    """os.write / sendall / stdin.write recorder; a blocking write takes everything (A3) and reports
-    `ret` (symbolic) when given, else the length"""
+    """os.write / sendall / stdin.write recorder; a blocking write takes everything and reports the number of
+    bytes it was given (A3)"""
 
     def __init__(self, ret=None):
         self.writes = []
